@@ -38,6 +38,8 @@ class Ctx:
         self.notes = []
         self.exhaustive = False
         self.model_calls = 0
+        self.known_counts = {}
+        self.findings, self.classes = [], {}
         self.model_broken = None if b['model_ok'] else 'model binary did not build'
 
     # -- model access -------------------------------------------------
@@ -63,9 +65,25 @@ class Ctx:
             self.samples.append({'kind': kind, 'input': inp})
 
     def fail(self, inp, detail, cls=None, kind='direct'):
-        """the property fails on the implementation for this input"""
-        if len(self.failures) < 2000:
-            self.failures.append({'input': inp, 'detail': detail, 'class': cls, 'kind': kind})
+        """the property fails on the implementation for this input.  Failures of a recorded class are
+        counted but only the first 300 per finding are kept, so that they can never crowd out an
+        unknown failure (kept up to 2000)."""
+        hit = None
+        for kf in getattr(self, 'findings', []):
+            pred = getattr(self, 'classes', {}).get(kf['class'])
+            try:
+                if pred and pred(inp):
+                    hit = kf['id']
+                    break
+            except Exception:
+                pass
+        if hit is not None:
+            self.known_counts[hit] = self.known_counts.get(hit, 0) + 1
+            if self.known_counts[hit] > 300:
+                return
+        elif sum(1 for f in self.failures if f.get('hit') is None) >= 2000:
+            return
+        self.failures.append({'input': inp, 'detail': detail, 'class': cls, 'kind': kind, 'hit': hit})
 
     def disagree(self, inp, model, impl, what=''):
         if len(self.disagreements) < 2000:
@@ -122,6 +140,7 @@ def main(argv):
     ctx = Ctx(pid, tier, seed, b)
     findings = load_findings(pid)
     classes = getattr(mod, 'CLASSES', {})
+    ctx.findings, ctx.classes = findings, classes
 
     broken = []   # proof obligations / correspondence that no longer check
     if b['shape_error']:
@@ -146,14 +165,7 @@ def main(argv):
     def classify(ctx):
         known, unknown = collections.defaultdict(list), []
         for f in ctx.failures:
-            hit = None
-            for kf in findings:
-                pred = classes.get(kf['class'])
-                try:
-                    if pred and pred(f['input']):
-                        hit = kf['id']; break
-                except Exception:
-                    pass
+            hit = f.get('hit')
             (known[hit].append(f) if hit else unknown.append(f))
         return known, unknown
 
@@ -248,7 +260,7 @@ def main(argv):
         print(l)
     print('%s %s: theorems %d/%d, cases %d (nontrivial distinct %d), model runs %d, disagreements %d, failures known=%d unknown=%d, %.1fs'
           % (pid, tier, discharged, obligations, ctx.evaluations, len(ctx.nontrivial), ctx.model_calls, len(ctx.disagreements),
-             sum(len(v) for v in known.values()), len(unknown), time.time() - t0))
+             sum(ctx.known_counts.values()), len(unknown), time.time() - t0))
     if broken:
         for x in broken:
             print('  broken:', x[:600].replace('\n', ' | '))
